@@ -14,6 +14,11 @@ iterator transliterated, its comparison conditions regenerated from the source a
 Spec: `Spec.KV`. The iterator theorem is for iterators drained without intervening writes (DESIGN
 §2.6); the underlying store's own iterator is assumed to obey `iterSpec` (the contract every
 backend is tied to by the `kv` streams).
+
+Not covered (neither by a theorem nor by the stream): an iterator that is kept open while the store
+is written, flushed or dropped. The code is only weakly consistent there (the iterator walks the live
+tree); the statement DESIGN §5 names `…_stale_iter_partial` ("keys strictly ascending, each pair was
+in the view at some moment between creation and the call") is not modelled.
 -/
 namespace C22
 open Bytes Spec Spec.KV Model.Flushable
@@ -86,6 +91,23 @@ theorem drop_spec (st : St) :
     view (dropNotFlushed st) = st.under ∧ (dropNotFlushed st).under = st.under ∧ notFlushedPairs (dropNotFlushed st) = 0 :=
   ⟨rfl, rfl, rfl⟩
 
+/-- `LazyFlushable`: until the first flush it is a flushable store over an empty store; the first
+    flush writes the tree into the real store, and keeps the view whenever the real store was empty
+    (a newly created DB, the intended use) or already initialised -/
+theorem lazy_flush_spec (l : Lazy) :
+    (l.inited = false → l.st.under = []) ∧
+    l.flush.real = overlayApply l.real l.overlay ∧ l.flush.overlay = [] ∧ l.flush.inited = true ∧
+    ((l.inited = true ∨ l.real = []) → view l.flush.st = view l.st) := by
+  refine ⟨fun h => by simp [Lazy.st, h], applyBatch_flushOps _ _, rfl, rfl, ?_⟩
+  intro h
+  have e : view l.flush.st = overlayApply l.real l.overlay := by
+    show overlayApply (applyBatch l.real (flushOps l.overlay)) [] = _
+    rw [applyBatch_flushOps]; rfl
+  rw [e]
+  rcases h with h | h
+  · simp [view, Lazy.st, h]
+  · cases hi : l.inited <;> simp [view, Lazy.st, hi, h]
+
 /-! ### all operation sequences: refinement to a three-field specification -/
 
 inductive FOp where
@@ -139,10 +161,10 @@ theorem touch_nodup {d : List Bytes} (h : d.Nodup) (k : Bytes) : (touch d k).Nod
 
 theorem R_write_one {st : St} {a : Abs} (r : R st a) (op : Op) :
     R (match op with | .put k v => put st k v | .del k => delete st k) (absOp a op) := by
-  have key : ∀ (k : Bytes) (x : Option Bytes) (sz : Nat),
+  have key : ∀ (k : Bytes) (x : Option Bytes) (_sz : Nat),
       (∀ k', k' ∈ touch a.dirty k ↔ (Overlay.lookup (st.overlay.put k x) k').isSome = true) ∧
       (touch a.dirty k).length = (st.overlay.put k x).length := by
-    intro k x sz
+    intro k x _
     constructor
     · intro k'
       rw [Overlay.lookup_put]
